@@ -428,6 +428,9 @@ def module_literal(mi, name: str) -> Optional[Term]:
     def conv(n):
         if isinstance(n, ast.Constant):
             return ("const", n.value)
+        if isinstance(n, ast.UnaryOp) and isinstance(n.op, ast.USub) and isinstance(n.operand, ast.Constant) \
+                and isinstance(n.operand.value, (int, float)) and not isinstance(n.operand.value, bool):
+            return ("const", -n.operand.value)  # NO_POSITION = -1
         if isinstance(n, (ast.Tuple, ast.List)):
             items = [conv(x) for x in n.elts]
             if all(i is not None for i in items):
@@ -2457,6 +2460,12 @@ class Walker:
                 return v
             imps = self.module_imports()
             if e.id in imps:
+                mod_i, _, nm_i = imps[e.id].rpartition(".")
+                mi_i = self.repo.modules.get(mod_i)
+                if mi_i is not None and mod_i != CONST_MOD:
+                    lit_i = module_literal(mi_i, nm_i)  # `from opfython.models.supervised import PROTOTYPE_COST`
+                    if lit_i is not None and lit_i[0] == "const":
+                        return lit_i
                 return ("mod", imps[e.id])
             mi = self.repo.modules[self.fnstack[-1].module]
             lit = module_literal(mi, e.id)
@@ -2895,6 +2904,10 @@ class Walker:
                                                  and str(root_object(r)[1]).startswith("numpy.")
                                                  and dict(root_object(r)[3]).get("dtype") in (None, ("mod", "numpy.float64"), ("builtin", "float"))):
                 return r
+        # float(v) of a cost / density held by a node or by the queue, of a dissimilarity (either arm of the pre-computed / metric
+        # choice), of an accuracy, or of a choice between such values: the same number (these are floats: setters, metrics)
+        if fn == ("builtin", "float") and len(args) == 1 and not kwargs and _float_valued(args[0]):
+            return args[0]
         # np.float64(0.0) is 0.0
         if fn in (("mod", "numpy.float64"), ("mod", "numpy.double")) and len(args) == 1 and not kwargs and args[0][0] == "const" \
                 and isinstance(args[0][1], (int, float)) and not isinstance(args[0][1], bool):
@@ -3858,6 +3871,30 @@ ARRAY_VIEWS = ("ravel", "flatten", "reshape", "astype", "copy", "squeeze", "toli
 
 NODE_NUMBER_FIELDS = ("idx", "pred", "root", "cost", "density", "radius", "status", "relevant", "n_plateaus",
                       "label", "predicted_label", "cluster_label")
+
+
+def _float_valued(t: Term, depth: int = 0) -> bool:
+    """A term that denotes a float the library produced: Node.cost / density / radius, Heap.cost[...], a pre-computed entry, a
+    metric result, opf_accuracy(...), max / min / a conditional choice of such, a stale copy of one."""
+    if depth > 8:
+        return False
+    if t[0] == "old":
+        return _float_valued(t[1], depth + 1)
+    if t[0] == "attr" and t[2] in ("cost", "density", "radius") and Walker._is_node_term(t[1]):
+        return True
+    if t[0] == "idx" and t[1][0] == "attr" and t[1][2] == "cost":
+        return True
+    if _matrix_rooted(t):
+        return True
+    if t[0] == "call" and ((t[1][0] == "attr" and t[1][2] == "distance_fn") or (t[1][0] == "param" and t[1][1] in ("distance_function", "distance_fn"))
+                           or t[1] == ("mod", "opfython.math.general.opf_accuracy")
+                           or (t[1][0] == "idx" and t[1][1] == ("mod", "opfython.math.distance.DISTANCES"))):
+        return True
+    if t[0] == "sel":
+        return _float_valued(t[2], depth + 1) and _float_valued(t[3], depth + 1)
+    if t[0] in ("max", "min"):
+        return all(_float_valued(x, depth + 1) or (x[0] == "const" and isinstance(x[1], float)) for x in t[1])
+    return False
 
 
 def never_none(t: Term) -> bool:
